@@ -218,6 +218,10 @@ class C10(Check):
             for fstate in ("absent", "valid", "newline"):
                 cs.append({"kind": "history", "platform": platform, "file": fstate, "default": fstate == "absent",
                            "force": True, "devpin": "match", "force_all": True})
+        # the same under `python -O` (assert statements compiled away): a verdict must not be checked by assert
+        for sub in [{"kind": "history", "platform": pf, "file": fst, "default": fst == "absent", "force": fst != "absent",
+                  "devpin": "match"} for pf in ("ledger", "sgx") for fst in ("absent", "valid")]:
+            cs.append({"kind": "optimized", "sub": sub})
         for a in range(4):
             for b in range(4):
                 cs.append({"kind": "generator", "first": [a, b]})
@@ -241,6 +245,9 @@ class C10(Check):
 
     # ------------------------------------------------------------------
     def run_case(self, case, stats):
+        if case["kind"] == "optimized":
+            from ..framework import optimized
+            return optimized(self, case, stats)
         if case["kind"] == "generator":
             return self.generator(case, stats)
         vs = []
